@@ -91,7 +91,7 @@ fn call_function(a: &[String]) -> String {
 }
 
 /// vmstep object-method <name-hex> <receiver 0|1> <chain end> <argument>*
-/// heap: #0 = object { parent: <chain end>, methods { m/2 (one extra local) } }, #1 = object { parent: #0, methods { n/2 } }
+/// heap: #0 = object { parent: <chain end>, methods { m/2 (one extra local), v/2 (one extra local) } }, #1 = object { parent: #0, methods { n/2, v/3 } }
 fn object_method(a: &[String]) -> String {
     use indexmap::IndexMap;
     let name = unhex(&a[0]);
@@ -99,12 +99,15 @@ fn object_method(a: &[String]) -> String {
     let parent = parse(&a[2]);
     let args: Vec<Pointer> = a[3..].iter().map(|s| parse(s)).collect();
     let program = prog(filler_code(6), vec![ProgramObject::String(name)]);
-    let method = |start: u32, locals: u16| ProgramObject::Method { name: ConstantPoolIndex::new(0), parameters: Arity::new(2), locals: Size::new(locals),
+    let method_n = |start: u32, locals: u16, params: u8| ProgramObject::Method { name: ConstantPoolIndex::new(0), parameters: Arity::new(params), locals: Size::new(locals),
                                                                   code: AddressRange::new(Address::from_u32(start), 1) };
+    let method = |start: u32, locals: u16| method_n(start, locals, 2);
     let mut m0 = IndexMap::new();
     m0.insert("m".to_string(), method(3, 1));
+    m0.insert("v".to_string(), method(2, 1));
     let mut m1 = IndexMap::new();
     m1.insert("n".to_string(), method(4, 0));
+    m1.insert("v".to_string(), method_n(5, 0, 3));
     let mut state = plain_state();
     state.heap = Heap::from(vec![HeapObject::new_object(parent, IndexMap::new(), m0),
                                  HeapObject::new_object(Pointer::Reference(HeapIndex::from(0usize)), IndexMap::new(), m1),
